@@ -1131,4 +1131,17 @@ theorem managerRun_wf {m : BookMap} {heap : Heap} {stream : List TStreamEvent}
     subst he2; exact hsn s0 he1
   | update u => simp [TEvent.toCore] at he2
 
+
+/-! ## evaluating the constructor on concrete inputs (the merge sort does not reduce in the kernel) -/
+
+/-- any ordered permutation of an input with distinct prices is the constructed side -/
+theorem sortLevels_eval {s : Side} {ls l' : List Level} (hn : (ls.map Level.price).Nodup)
+    (hp : l'.Perm ls) (hs : WSorted s l') : sortLevels s ls = l' :=
+  (sortLevels_unique_of_nodup hn hp hs).symm
+
+theorem new_eval {seq : Nat} {te : Option Int} {bids asks bids' asks' : List Level}
+    (hb : sortLevels .bids bids = bids') (ha : sortLevels .asks asks = asks') :
+    TBook.new seq te bids asks = ⟨seq, te, bids', asks'⟩ := by
+  simp only [TBook.new, hb, ha]
+
 end BarterModel.BookManager
